@@ -110,6 +110,23 @@ func (e *StackSafeLeaf) Error() string                 { return e.Msg }
 func (e *StackSafeLeaf) StackTrace() pkgErr.StackTrace { return e.St }
 func (e *StackSafeLeaf) SafeDetails() []string         { return []string{"stacksafe detail"} }
 
+// AsWrap: a WRAPPER with its own As method: it converts itself to *AsTarget
+// and declines every other target (the search must then go on below it).
+type AsWrap struct {
+	C   error
+	Msg string
+}
+
+func (e *AsWrap) Error() string { return e.Msg + ": " + e.C.Error() }
+func (e *AsWrap) Unwrap() error { return e.C }
+func (e *AsWrap) As(target interface{}) bool {
+	if t, ok := target.(**AsTarget); ok {
+		*t = &AsTarget{From: "wrap:" + e.Msg}
+		return true
+	}
+	return false
+}
+
 // LOW is sometimes a leaf and sometimes a wrapper.
 type LOW struct {
 	Msg string
